@@ -76,6 +76,21 @@ struct Chain<E: El, I: Item<E>> {
     /// properties speak about those points, and an adapter is free to fetch
     /// several inputs before it emits.
     provisional: RefCell<Vec<Option<Violation>>>,
+    /// Diffs emitted by each segment so far. A provisional divergence is
+    /// forgotten at a later boundary only if the view is right there *and*
+    /// the segment has emitted something since (the view moved to the right
+    /// place); if only the expectation moved - a prefetching adapter took
+    /// another input item while its diffs for the earlier ones are still
+    /// queued - the divergence stays the first one until a quiescent point
+    /// confirms the view.
+    emitted: Vec<usize>,
+    prov_at: RefCell<Vec<usize>>,
+    /// The first divergence of a segment that has the shape of a known
+    /// finding (spec.rs recognisers). Such a defect leaves the emitted view
+    /// out of step with what the adapter assumes, so whatever goes wrong in
+    /// that segment afterwards is its consequence - until a quiescent point
+    /// finds the view right again.
+    taint: RefCell<Vec<Option<Violation>>>,
 }
 
 fn narrow<E: El>(kind: StageKind, input: &[E], lim: Option<usize>) -> Vec<E> {
@@ -156,7 +171,7 @@ impl<E: El, I: Item<E>> Chain<E, I> {
                 stages[k].seg = g;
             }
         }
-        Chain { top, pending_stage, log, stages, segs, reps, src_ended: false, ended: false, last_pending: None, flat_out: Vec::new(), direct: cfg.direct, tap_pending: vec![false; 8], provisional: RefCell::new(vec![None; 8]) }
+        Chain { top, pending_stage, log, stages, segs, reps, src_ended: false, ended: false, last_pending: None, flat_out: Vec::new(), direct: cfg.direct, tap_pending: vec![false; 8], provisional: RefCell::new(vec![None; 8]), emitted: vec![0; 8], prov_at: RefCell::new(vec![0; 8]), taint: RefCell::new(vec![None; 8]) }
     }
 
     /// Late stacking: build the pending stage on the dynamic adapter that has
@@ -251,7 +266,12 @@ impl<E: El, I: Item<E>> Chain<E, I> {
         st.hit("boundary_checks");
         match view_ok(kind, &input, self.stages[k].lim, &self.reps[g + 1]) {
             Ok(()) => {
-                self.provisional.borrow_mut()[g] = None;
+                if strict || self.emitted[g] > self.prov_at.borrow()[g] {
+                    self.provisional.borrow_mut()[g] = None;
+                }
+                if strict {
+                    self.taint.borrow_mut()[g] = None;
+                }
                 Ok(())
             }
             Err(msg) => {
@@ -271,17 +291,40 @@ impl<E: El, I: Item<E>> Chain<E, I> {
                     ),
                 );
                 let mut prov = self.provisional.borrow_mut();
+                if is_known_shape(&v.sig) && self.taint.borrow()[g].is_none() {
+                    self.taint.borrow_mut()[g] = Some(v.clone());
+                }
                 if strict {
-                    // report the first divergence since the view was last right
-                    Err(prov[g].take().unwrap_or(v))
+                    // report the first divergence since the view was last
+                    // confirmed right
+                    let first = if is_known_shape(&v.sig) {
+                        prov[g] = None;
+                        v
+                    } else {
+                        prov[g].take().unwrap_or(v)
+                    };
+                    match self.taint.borrow_mut()[g].take() {
+                        Some(t) if !is_known_shape(&first.sig) => Err(t),
+                        _ => Err(first),
+                    }
                 } else {
                     if prov[g].is_none() {
                         prov[g] = Some(v);
+                        self.prov_at.borrow_mut()[g] = self.emitted[g];
                         st.hit("provisional_boundary_mismatches");
                     }
                     Ok(())
                 }
             }
+        }
+    }
+
+    /// The earliest unconfirmed divergence of segment g's view, if any.
+    fn first_divergence(&self, g: usize) -> Option<Violation> {
+        let p = self.provisional.borrow_mut()[g].take();
+        match self.taint.borrow_mut()[g].take() {
+            Some(t) if !p.as_ref().is_some_and(|p| is_known_shape(&p.sig)) => Some(t),
+            _ => p,
         }
     }
 
@@ -305,6 +348,7 @@ impl<E: El, I: Item<E>> Chain<E, I> {
         for d in &diffs {
             if g > 0 {
                 self.segs[g - 1].outputs.push(d.clone());
+                self.emitted[g - 1] += 1;
             }
             if let Err(e) = apply_checked(d, &mut self.reps[g]) {
                 if g == 0 {
@@ -312,12 +356,20 @@ impl<E: El, I: Item<E>> Chain<E, I> {
                 }
                 // an unhealed earlier divergence of this view is the first
                 // divergence; what follows it is a consequence
-                if let Some(pv) = self.provisional.borrow_mut()[g - 1].take() {
-                    return Err(pv);
+                // (unless this very failure has the shape of a known finding:
+                // a provisional mismatch recorded while the diffs for the
+                // current item were still incomplete must not hide it)
+                let sig = {
+                    let seg = &self.segs[g - 1];
+                    let k = *seg.stages.last().unwrap();
+                    classify(self.stages[k].kind, "inapplicable", &seg.last_item, &seg.outputs)
+                };
+                if !is_known_shape(&sig) {
+                    if let Some(pv) = self.first_divergence(g - 1) {
+                        return Err(pv);
+                    }
                 }
                 let seg = &self.segs[g - 1];
-                let k = *seg.stages.last().unwrap();
-                let sig = classify(self.stages[k].kind, "inapplicable", &seg.last_item, &seg.outputs);
                 return Err(viol(
                     self.view_prop(g - 1, cx),
                     cx.step,
@@ -336,7 +388,7 @@ impl<E: El, I: Item<E>> Chain<E, I> {
                             st.mark("view_full_again_after_making_room");
                         }
                         if self.reps[g].len() > l as usize {
-                            if let Some(pv) = self.provisional.borrow_mut()[g - 1].take() {
+                            if let Some(pv) = self.first_divergence(g - 1) {
                                 return Err(pv);
                             }
                             return Err(viol(
@@ -444,8 +496,12 @@ impl<E: El, I: Item<E>> Chain<E, I> {
                 st.mark("pending_then_woken_then_ready");
             }
         }
-        if self.src_ended && !src_end_before && !matches!(r, Poll::Ready(None)) {
-            return Err(viol(top_kind.prop(), cx.step, format!("source-ended-adapter-did-not/{}", top_kind.name()), "the source stream ended during this poll but the adapter did not report the end".to_string()));
+        // Once its source has ended an adapter may still hand out what it has
+        // queued (one poll can take several input items), but it can never be
+        // Pending again: nothing would ever wake it.
+        let _ = src_end_before;
+        if self.src_ended && matches!(r, Poll::Pending) {
+            return Err(viol(top_kind.prop(), cx.step, format!("source-ended-adapter-did-not/{}", top_kind.name()), "the source stream has ended but the adapter answers Pending instead of delivering what it holds and ending".to_string()));
         }
         match r {
             Poll::Ready(Some(item)) => {
